@@ -223,11 +223,23 @@ impl CodeFormatter {
                         .chunks
                         .iter()
                         .rev()
-                        .take_while(|chunk| chunk.str == "\n")
+                        // (a pending space may have ended up in front of a newline)
+                        .take_while(|chunk| chunk.str.trim_start_matches(' ') == "\n")
                         .count();
                     for _ in existing.min(1)..2 {
                         self.push("\n");
                     }
+                } else if !matches!(token, Token::Eof(_))
+                    && !matches!(prev_token, Token::Label { block: None, .. })
+                    && self
+                        .chunks
+                        .last()
+                        .map(|chunk| !chunk.str.ends_with('\n'))
+                        .unwrap_or(false)
+                {
+                    // No empty line wanted. But the token was on the same line as the previous one, and it should still
+                    // start on a line of its own (only a label and the code behind it share a line).
+                    self.push("\n");
                 }
             }
 
